@@ -1535,6 +1535,14 @@ func (ex *explorer) doCall(st *State, in ssa.Instruction, c *ssa.CallCommon, val
 			bind(&Term{Op: "append", Args: args})
 		case "close":
 			ex.emit(st, Step{Kind: KClose, Instr: in, A: args})
+		case "Add":
+			// unsafe.Add(p, n) is unsafe.Pointer(uintptr(p) + uintptr(n)): one normal form for both spellings
+			if len(args) == 2 {
+				up := &Term{Op: "conv", Aux: "uintptr", Args: []*Term{args[0]}, Typ: types.Typ[types.Uintptr]}
+				bind(&Term{Op: "conv", Aux: "unsafe.Pointer", Args: []*Term{mkBin("+", up, args[1])}, Typ: types.Typ[types.UnsafePointer]})
+			} else {
+				bind(&Term{Op: "pure", Aux: b.Name(), Args: args})
+			}
 		case "min", "max":
 			bind(&Term{Op: "pure", Aux: b.Name(), Args: args})
 		default:
